@@ -200,8 +200,13 @@ func (w *worker) build(d *dataset, rng *rand.Rand, thorough bool) bool {
 			if _, ok := w.do(d, cmd...); !ok {
 				return false
 			}
-			for _, o := range d.objs {
-				if o.HasRect {
+			dropped := make([]string, 0, len(d.objs))
+			for k := range d.objs {
+				dropped = append(dropped, k)
+			}
+			sort.Strings(dropped)
+			for _, k := range dropped {
+				if o := d.objs[k]; o.HasRect {
 					d.ghost = append(d.ghost, o.Rect)
 				}
 			}
